@@ -18,7 +18,7 @@ EXPLANATION = (
     'an Err value. R02.g a value delivered into a legacy future reaches the asking task (pending poll keeps this poll\'s waker under the slot\'s '
     'lock; resolve delivers, takes and wakes under it). R02.h a serialised resolution addressed to no outstanding request (a second response to a '
     'one-shot) is an Err, never a panic. R02.i the arity state of a resolver is written only inside its own resolve(). Cross-delivery freedom under every '
-    'interleaving is argued from ownership, not decided. R02.j every serialised effect, notifications included, is stored under and announced with the slab key of its own resolver, and nothing renumbers the registry (shared with C09). R02.m the bridge codec has one options value and no byte limit (shared with C10): a limit applies when decoding only, after the one-shot entry was taken out.')
+    'interleaving is argued from ownership, not decided. R02.j every serialised effect, notifications included, is stored under and announced with the slab key of its own resolver, and nothing renumbers the registry (shared with C09). R02.m the bridge codec has one options value and no byte limit (shared with C10): a limit applies when decoding only, after the one-shot entry was taken out. R02.n the command-API request futures are plain typestate machines: from Sent every poll is the poll of the receiver (shared with C01 R01.f).')
 
 CLOSURE_CALLS = ['core::ops::function::Fn::call', 'core::ops::function::FnMut::call_mut', 'core::ops::function::FnOnce::call_once']
 
@@ -310,6 +310,13 @@ def check(ctx, rep):
     from rules.props import c10 as _c10
     rep.rule('R02.m', 'the bridge codec has one options value for both directions and no byte limit', floor=5)
     _c10.check_codec(ctx, rep, rid='R02.m')
+    # R02.n: "every resolution of a stream reaches the consumer once, in order" on the command API rests on the request futures being plain
+    # typestate machines: ReadyToSend sends once and keeps the receiver, and from Sent every poll IS the poll of that receiver — no buffer
+    # of its own between the channel and the consumer (shared with C01 R01.f; seeded: a `Vec` batch drained with push and handed out with
+    # pop — a burst of resolutions arrives reversed)
+    from rules.props import prims as _prims
+    rep.rule('R02.n', 'a command-API request / stream future sends once and then only polls its receiver (no buffering or reordering of its own)', floor=10)
+    _prims.check_request_typestate(rep, 'R02.n', core)
     rep.rule('R02.i', 'the arity state of a resolver (typed or serialised) is written only inside its own resolve', floor=2)
     c09.check_entry_writers(rep, 'R02.i', core)
     rep.assume('futures::channel::mpsc::unbounded and crux_core::capability::channel return two halves of one fresh FIFO channel')
